@@ -102,14 +102,15 @@ CLAIMED = {
     ),
     "C07": (
         "Coq model of the send FSM on a mini event loop + invariant by induction over arbitrary runs (a caller is only ever handed its own command's echo or reply, while no internal assertion trips) + step lemmas (deadline armed at the call, the deadline wakes the caller, a wake-up always answers) + trace-equality correspondence with the real PortProtocol on a virtual-time loop + schedule oracle",
-        "7 theorems in coq/props/C07.v about coq/model/M_Qos.v (ProtocolContext.set_state/_send_cmd/_check_buffer_for_cmd/send_cmd, the "
+        "9 theorems in coq/props/C07.v about coq/model/M_Qos.v (ProtocolContext.set_state/_send_cmd/_check_buffer_for_cmd/send_cmd, the "
         "expiry task, the writer task, every 'Coding error' assert as an explicit Crash, on a loop model with _run_once batching and "
         "tie policies): every call is answered at once or arms a wake-up at now + min(timeout, 20 s) [the cap re-read from the source]; "
         "the wake-up of a waiting/timed-out caller always produces an answer; C07_result_belongs: in EVERY run (any events, tie policy, transport "
         "plan, number of steps) whose trace shows no tripped assertion (none reached the loop, none was handed to a caller -- those runs are C09's "
         "finding), every packet handed to a caller has the header of ITS frame (echo) or the header ITS frame asks for (reply): invariant 'the frame "
         "being matched is the frame of the command whose future will be resolved, the kept echo is that frame's' through every callback, plus "
-        "monotonicity of the trace on every path incl. crashes; non-vacuity witness. PARTIAL: after a tripped assertion ownership is only "
+        "monotonicity of the trace on every path incl. crashes; non-vacuity witness; the 0418 special case is in the model (packets carry the class of a null fault-log entry, RQ|0418 commands the class of their reply header): "
+        "while a reply is awaited a packet with neither the awaited header nor the ADDRESSED controller's null entry changes nothing (C07_foreign_packet_ignored), that controller's null entry answers (C07_own_null_entry_answers). PARTIAL: after a tripped assertion ownership is only "
         "checked by the oracle; 'within the deadline' is per-step (armed / wakes / answers), not a run-level liveness theorem. Tie: ~100 (thorough 400+) generated schedules + 14 singled-out ones "
         "run on the real PortProtocol and on the model; traces (write times, answers with outcome class and packet, loop exceptions, "
         "final state, queue) must be EQUAL. Oracle: one answer per call, answered by the deadline, result is own echo/reply, error class "
@@ -119,14 +120,15 @@ CLAIMED = {
     ),
     "C08": (
         "Coq invariant by induction over arbitrary event lists / tie policies / transport behaviours (Hoare-style triples over the step monad, holding at assertion crashes too) + computed ladder and refutation witness + trace-equality correspondence + schedule oracle",
-        "9 theorems in coq/props/C08.v: in EVERY reachable world tx_count <= tx_limit, limit >= 1 for a current command, back-off exponent "
+        "13 theorems in coq/props/C08.v: in EVERY reachable world tx_count <= tx_limit, limit >= 1 for a current command, back-off exponent "
         "<= 3 (so every wait is base x 2^k, k <= 3); limit = 1 + min(max_retries, MAX_RETRY_LIMIT) with the constant regenerated; the exact "
         "ladder (writes at +0, +0.5, +1.5, +3.5 s, failure at +7.5 s) by computation; 'never transmitted after the caller was answered' is "
         "REFUTED with a witness (transport-delayed write) that the oracle re-observes on the real FSM (KNOWN). PRIORITY THEN FIFO: in EVERY "
         "reachable world (crashes included) the send buffer is in (priority, arrival stamp) order with unique stamps (C08_queue_ordered: insertion keeps the order, "
         "the stamp only grows, every other callback leaves buffer and stamp alone), and the command that starts next is the first entry whose caller has not gone -- "
         "everything still waiting has a worse priority or the same priority and a later arrival (C08_next_is_least_pending); computed witness of an overtaking. "
-        "One-in-flight is decided by the oracle on the implementation + trace equality, not by a theorem (partial; with a slow transport it is refuted, see above).",
+        "ONE IN FLIGHT (coq/proof/P_QosSlot.v): in EVERY reachable world, while the command holding the FSM's slot has not had its caller answered (result, error, cancellation), NO next step of the machine -- any callback, crashes included -- gives the slot to another command, and the command being transmitted / awaited is the holder or nothing "
+        "(C08_one_in_flight, C08_current_is_holder; premises met and the slot does change hands once the holder is answered: C08_one_in_flight_nonvacuous, C08_slot_changes_hands). A transport-delayed WRITE of an ended command can still reach the radio while the next one holds the slot (the refuted clause above).",
         "Trusted: Coq kernel, translator (FSM constants), harness (virtual-time loop = CPython's own _run_once with a clock-advancing selector, in-memory transport). Modelled not verified: asyncio semantics as assumed by the mini loop (time stands still within an iteration unless an explicit Stall event -- a callback that takes wall time -- moves it, in the model and on the virtual loop alike); threading.Lock, GC timing of never-retrieved task exceptions, the 0418 null-reply special case, the impersonation alert of PortProtocol.send_cmd. Liveness is only 'a wake-up is armed / a wake-up answers' -- that due timers run is the event loop's job.",
         "6 (C07-C09)",
     ),
@@ -156,7 +158,7 @@ CLAIMED = {
     ),
     "C20": (
         "Coq proof over the FINITE state space of a binding wait (one-step invariants decided by kernel computation over all 336 states x 5 events, lifted by induction to every history of instants) + correspondence with the real state classes on a virtual-time loop + two-ended handshake oracle",
-        "15 theorems in coq/props/C20.v about coq/model/M_Bind.v and M_BindAttempts.v (several attempts on one context: an attempt can be "
+        "16 theorems in coq/props/C20.v (C20_early_match_not_lost: the awaited packet, repeats of it and unrelated packets arriving BEFORE the role coroutine reaches its await -- its own send still pending -- end the wait at once with that packet) about coq/model/M_Bind.v and M_BindAttempts.v (several attempts on one context: an attempt can be "
         "abandoned -- the caller gives up, a send raises: BindContextBase._abandon_binding -- and retried; for EVERY history no abandoned state "
         "object keeps an armed timer, an abandon ends binding, and a new attempt on a non-binding context evolves exactly as a first attempt "
         "whatever happened before, so the single-wait theorems apply to every retry; the wrong order of the two statements of "
@@ -204,15 +206,15 @@ CLAIMED = {
     ),
     "C13": (
         "Coq proof (engine pause/resume automaton: every snapshot/restore, succeeding or raising, leaves every engine variable unchanged; invariant of all reachable states by induction) + step-by-step correspondence with the real Gateway + exploration of all public views over derived histories",
-        "8 theorems in coq/props/C13.v about coq/model/M_Engine.v (= Engine/Gateway._pause/_resume, get_state and "
+        "9 theorems in coq/props/C13.v about coq/model/M_Engine.v (= Engine/Gateway._pause/_resume, get_state and "
         "_restore_cached_packets as pause; body; resume with the body free to raise): for every up engine and ANY sequence of snapshots "
-        "and restores in any mix of successes and failures, handler / sending switch / discovery switch / writing flag / saved tuple are "
+        "and restores in any mix of successes and failures, handler / sending switch / discovery switch / writing flag / the transport's reading flag (has_tr, rd_paused: a packet is taken from the source only while reading) / saved tuple are "
         "exactly as before and the next packet reaches the same handler; a snapshot while a client holds the engine paused is refused and "
         "changes nothing; every reachable state is up or one resume away from up; the pre-repair code (no try/finally) is the refuted "
-        "witness. PARTIAL: 'every public view returns without raising after any history' is NOT a theorem -- the several hundred view "
+        "witness, and a _resume() that resumes reading only when sending is enabled is a second one (C13_merged_guard_refuted). PARTIAL: 'every public view returns without raising after any history' is NOT a theorem -- the several hundred view "
         "properties of the entity classes are not modelled; it is decided by exploration of the implementation (derived histories + a "
         "sweep regenerating every recorded packet shape from its schema regex in lowest/highest/random modes), and Message._expired's "
-        "totality is C14's theorem. Tie: ~170 (thorough ~900) op sequences x 3 engine configurations on real Gateways (read-only and "
+        "totality is C14's theorem. Tie: ~170 (thorough ~900) op sequences x 4 engine configurations (the fourth: a sending-enabled gateway not yet started, no transport) on real Gateways (read-only and "
         "writeable protocol) compared step by step with the automaton; bodies made to raise by an unreadable entity, a missing packet "
         "source, and cancellation at the await.",
         "Trusted: Coq kernel, harness. Modelled not verified: the body of get_state/restore as 'does not touch the engine variables'; "
